@@ -451,7 +451,7 @@ package prunner
 //@ func (pipelineJobBy).Sort
 //@   safety
 //@   lockmode any
-//@   trusted sort.Sort permutes the slice in place using Len/Less/Swap of pipelineJobsSorter
+//@   trusted sort.Sort (standard library) orders the slice through Len/Less/Swap of pipelineJobsSorter; those three methods ARE verified against functional contracts below, the trusted part is the library algorithm composing them
 //@   ensures [perm] sameOutside("mem(*PipelineJob)", jobs) && permOf(jobs)
 //@   ensures [sorted] by == byCreationTimeDesc ==> forall i, j :: 0 <= i && i < j && j < len(jobs) ==> jobs[i].Created >= jobs[j].Created
 //@   modifies mem(*PipelineJob)
@@ -534,13 +534,24 @@ package prunner
 //@   loop 4 invariant [ri] RI(r) && r.defs == old(r.defs) && jobsUntouched() && liveKept(r) && sameExcept("map(map[string][]*PipelineJob)", old(r.jobsByPipeline)) && $held == 2 && fresh(data) && fresh(base(data.Jobs)) && wf(data.Jobs) && snapshotFaithful(r, data) && same("jobTask.*") && same(PipelineJob.Tasks) && same(PipelineJob.Variables) && same(PipelineJob.User) && same(PipelineJob.Created) && 0 <= $i + 1 && $i + 1 <= len(tasks) && fresh(base(tasks)) && off(tasks) == 0 && len(tasks) == len(job.Tasks) && job != nil && r.jobsByID[job.ID] == job && (job.ID in r.jobsByID) && base(tasks) != base(data.Jobs) && forall k :: 0 <= k && k <= $i ==> persistedTaskOf(tasks[k], job.Tasks[k])
 
 //@ func (*pipelineJobsSorter).Len
+//@   safety
 //@   lockmode R
+//@   requires [nonnil] s != nil
+//@   ensures  [len] res == len(s.pipelineJobs)
 //@   modifies nothing
 //@ func (*pipelineJobsSorter).Less
+//@   safety
 //@   lockmode R
+//@   requires [bounds] s != nil && wf(s.pipelineJobs) && all(s.pipelineJobs, nonNil) && 0 <= i && i < len(s.pipelineJobs) && 0 <= j && j < len(s.pipelineJobs)
+//@   ensures  [C12.less] s.by == byCreationTimeDesc ==> (res <==> s.pipelineJobs[j].Created < s.pipelineJobs[i].Created)
 //@   modifies nothing
 //@ func (*pipelineJobsSorter).Swap
+//@   safety
 //@   lockmode W
+//@   requires [bounds] s != nil && wf(s.pipelineJobs) && 0 <= i && i < len(s.pipelineJobs) && 0 <= j && j < len(s.pipelineJobs)
+//@   ensures  [swapped] s.pipelineJobs[i] == old(s.pipelineJobs[j]) && s.pipelineJobs[j] == old(s.pipelineJobs[i])
+//@   ensures  [others] forall k :: 0 <= k && k < len(s.pipelineJobs) && k != i && k != j ==> s.pipelineJobs[k] == old(s.pipelineJobs[k])
+//@   ensures  [frame] sameOutside("mem(*PipelineJob)", s.pipelineJobs) && s.pipelineJobs == old(s.pipelineJobs)
 //@   modifies mem(*PipelineJob)
 //@ func byCreationTimeDesc
 //@   safety
@@ -650,7 +661,7 @@ package prunner
 //@ property C07: prunner.*/ensures[C07.*] prunner.*/call-pre[(*PipelineRunner).startJob.timerDone]* prunner.*/ensures[C03.timerTruth] prunner.*/ensures[C03.progress] prunner.(*PipelineRunner).ScheduleAsync/ensures[C05.replace] prunner.(*PipelineRunner).startJob/ensures[skipCanceled] prunner.(*PipelineRunner).resolveDequeueJobAction/ensures* prunner/writers[PipelineJob.startTimer] prunner/writers[PipelineJob.StartDelay] prunner.*/monitor[RI] prunner.*/ensures[ri] prunner.*/call-pre[*.ri]* prunner/writers[PipelineJob.Created] prunner/writers[PipelineJob.Start]
 //@ property C10: prunner.*/ensures[C10.*] prunner.(*PipelineRunner).initialLoadFromStore/loop* prunner.buildJobFromPersistedJob/* helper.*/ensures* store/globalinit[json] store.(*JsonDataStore).Load/ensures[C09.load] prunner.*/assert[C10.*] prunner.(*PipelineJob).isRunning/ensures* prunner.(*PipelineRunner).SaveToStore/loop3/* prunner.(*PipelineRunner).SaveToStore/loop4/* lemma/cntZero* prunner.(*PipelineRunner).initialLoadFromStore/ensures* store.(*JsonDataStore).Save/* prunner.(*PipelineRunner).SaveToStore/*[C10.complete] prunner.(*PipelineRunner).initialLoadFromStore/*[C10.listedEach] prunner.(*PipelineRunner).runningJobsCount/*
 //@ property C11: prunner.(*PipelineRunner).requestPersist/ensures[req] prunner.*/ensures[C11.*] prunner.*/assert[C11.*] prunner.(*PipelineRunner).Shutdown/loop* prunner.(*PipelineRunner).Shutdown/monitor[RI] prunner.(*PipelineRunner).Shutdown/ensures[T] prunner.(*PipelineRunner).Shutdown$1/* prunner/writers[PipelineRunner.isShuttingDown] prunner.*/guarantee[gate] prunner.(*PipelineRunner).Shutdown/guarantee[T] prunner/interference[captured] prunner.(*PipelineRunner).Shutdown$1/frame* prunner.*/guarantee[noStart] prunner.*/guarantee[noNew] prunner.*/monitor[RI] prunner.*/ensures[ri] prunner.*/call-pre[*.ri]* prunner.(*PipelineRunner).startJobsOnWaitList/*[C11.*] prunner.(*PipelineRunner).SaveToStore/loop*[C11.noNew]
-//@ property C12: prunner.*/ensures[C12.*] prunner.(*PipelineRunner).SaveToStore/* prunner.removeJobFromList/* prunner.byCreationTimeDesc/ensures* prunner.*/assert[dist*] prunner.*/monitor[RI] prunner.(*PipelineRunner).determineIfJobShouldBeRemoved/* prunner.*/assert[wl*] prunner.(*PipelineRunner).initialLoadFromStore/*[C10.noLoss] prunner.(*PipelineRunner).SaveToStore/*[C01.listKeepsLive] prunner.(*PipelineRunner).initialLoadFromStore/*[C10.listedEach]
+//@ property C12: prunner.(*pipelineJobsSorter).Len/ensures* prunner.(*pipelineJobsSorter).Swap/ensures* prunner.(*pipelineJobsSorter).*/safety prunner.(*pipelineJobsSorter).Less/call-pre* prunner.*/ensures[C12.*] prunner.(*PipelineRunner).SaveToStore/* prunner.removeJobFromList/* prunner.byCreationTimeDesc/ensures* prunner.*/assert[dist*] prunner.*/monitor[RI] prunner.(*PipelineRunner).determineIfJobShouldBeRemoved/* prunner.*/assert[wl*] prunner.(*PipelineRunner).initialLoadFromStore/*[C10.noLoss] prunner.(*PipelineRunner).SaveToStore/*[C01.listKeepsLive] prunner.(*PipelineRunner).initialLoadFromStore/*[C10.listedEach]
 //@ property C13: prunner.*/lock[read] prunner.*/lock[write] prunner.*/lockproto[*] prunner.*/call-pre[*.lockmode]* prunner.*/call-pre[*.guard]* prunner.*/call-pre[*.empty]* prunner.*/ensures[unpublished] prunner/interference[captured] prunner.*/guarantee[*]
 //@ property C15: prunner.*/ensures[C15.*] prunner.(*PipelineRunner).resolveScheduleAction/ensures[range] prunner.(*PipelineRunner).isRunning/loop* prunner.(*PipelineRunner).ReadJob/* prunner.(*PipelineRunner).IterateJobs/ensures* prunner.(*PipelineRunner).ListPipelines/ensures* prunner.(*PipelineRunner).ListPipelines/loop* prunner.(*PipelineJob).isRunning/ensures* prunner.*/monitor[RI] prunner.*/ensures[ri] prunner.*/call-pre[*.ri]* prunner/writers[PipelineJob.End] prunner/writers[PipelineJob.Created] prunner/writers[PipelineJob.Start] prunner.(*PipelineRunner).SaveToStore/*[C01.listKeepsLive]
 //@ property C08: prunner.*/assert[C08.*] prunner.(*PipelineRunner).JobCompleted/ensures[C04.verdict] prunner.*/assert[C04.cancelMeansError] prunner.(jobTasks).ByName/*
